@@ -177,7 +177,9 @@ class Check(c11.Check):
     def cases(self, tier, rng):
         for c in c11.gen_cases(tier, rng, n_quick=2800, n_thorough=30000):
             if c.data['via'] == 'parser':
+                # the model stream formats the text; the oracle also judges parser.getFormattedHTML / getMiniHTML on it
                 c.data['via'] = 'str'
+                c.data['entry'] = 'parser'
             yield c
 
     # ---- runs of one case: (text fed, cfg, via) ------------------------------------------------
@@ -314,6 +316,28 @@ class Check(c11.Check):
                 # attribute values, comments or interior of a text run had (cheap necessary condition: none appears
                 # directly before a tag outside preserved content — covered by mini_text_violation — nor after the doctype)
                 pass
+        if d.get('entry') == 'parser' and cls in ('pretty', 'mini'):
+            # the same laws on the parser's own entry points (same documents and configurations as C11)
+            import AdvancedHTMLParser
+            try:
+                ps = AdvancedHTMLParser.AdvancedHTMLParser()
+                ps.parseStr(p.doc1)
+                if cls == 'mini':
+                    po = ps.getMiniHTML()
+                elif cfg.get('indent') is None:
+                    po = ps.getFormattedHTML()
+                else:
+                    po = ps.getFormattedHTML(cfg['indent'])
+            except Exception as e:
+                return ('raises', 'the parser entry point raised %s: %s' % (type(e).__name__, e))
+            if unit is not None:
+                r = layout_violation(po, unit)
+                if r:
+                    return (r[0], 'parser.getFormattedHTML(%r): %s' % (cfg.get('indent'), r[1]))
+            else:
+                r = mini_text_violation(po)
+                if r:
+                    return (r[0], 'parser.getMiniHTML(): %s' % (r[1],))
         normal, slim = (o1, other) if cls in ('pretty', 'mini') else (other, o1)
         expect = slimmed(normal, bool(cfg.get('ssc')))
         if slim != expect:
